@@ -42,8 +42,7 @@ Oracles
      alias} x override at reconstruct {none, canonical, alias, canonical 0.0, alias 0.0} must give the result of the
      equivalent all-canonical object (override > optimized > initial regardless of spelling), judged differentially and,
      for parallax without flipping with defocus/astigmatism, by the closed form (4); both spellings in ONE dictionary with
-     equal values == canonical alone; with conflicting values the entry listed last wins (the order of the current tree,
-     reported under its own class).
+     equal values == canonical alone; for conflicting values the property states no order: the winner is only counted.
 """
 from __future__ import annotations
 
@@ -80,7 +79,7 @@ NOTE = (
     "output maximum. Stack contents are seeded (dyadic values so that 2x-3y is exact in float32). Scan shapes beyond 8x6, masks beyond 21 "
     "pixels, aberration values off the alphabet and soft_edges=False are not explored. Oracle (6) goes beyond the literal statement. "
     "Spelling families: 0/1-valued masks only; the optimized state is reached through the public searches with a single candidate value; "
-    "'defocus' = -C10 is the one alias with a sign; conflicting spellings in one dictionary are judged by the order the current tree defines (listed last wins)."
+    "'defocus' = -C10 is the one alias with a sign; for conflicting spellings in one dictionary the winner is counted in the coverage, not judged."
 )
 RULE = (
     "Cartesian product of the alphabets in coverage.alphabet; inside each point every max_batch_size 1..num_bf(sub-mask) and None. An "
@@ -1004,15 +1003,15 @@ def aber_combo(t, base, kv, up, pair, ctor, opt, over):
 
 
 def aber_one_dict(t, base, kv, up, pair, where, how):
-    """Both spellings of one coefficient in ONE dictionary: equal values == canonical alone; conflicting values: the
-    entry listed last wins (the order the current tree defines: entries are processed in dictionary order)."""
+    """Both spellings of one coefficient in ONE dictionary. Equal values must equal the canonical spelling alone (a
+    verdict). For CONFLICTING values the property states no order: which entry the library uses is only counted
+    (coverage.conflicting_spellings_winner), never judged."""
     env = base.env
     alias, canon, sign = pair
     v1, v2 = ABER_VALUES[canon][0], ABER_VALUES[canon][2]
     va = v1 if how.startswith("equal") else v2
     ent_c, ent_a = (canon, float(v1)), (alias, sign * float(va))
     both = dict([ent_c, ent_a] if how.endswith("canonical_first") else [ent_a, ent_c])
-    eff = v1 if how.startswith("equal") else (va if how.endswith("canonical_first") else v1)
     case = dict(env.point(kv, up, "none"), kind="aber_one_dict", coef=canon, alias=alias, where=where, how=how)
     del case["aber"]
     cdict = dict(context_for(pair))
@@ -1026,9 +1025,23 @@ def aber_one_dict(t, base, kv, up, pair, where, how):
     except ReconError as ex:
         t.fail({"relation": "reconstruct_raised", "exception": type(ex.__cause__).__name__, **kclass(kv)}, case, f"{ex} at {case}")
         return
-    rel = "aberration_both_spellings_equal_values" if how.startswith("equal") else "aberration_conflicting_spellings_last_listed_wins"
-    _judge_aber(t, base, kv, up, None, pair, eff, got, {"relation": rel, "where": where, "order": how.split("_", 1)[1]}, case, f"{canon} and {alias} in one {where} dictionary {both}")
-    t.extra["aberration_one_dict_combinations"] += 1
+    if how.startswith("equal"):
+        _judge_aber(t, base, kv, up, None, pair, v1, got, {"relation": "aberration_both_spellings_equal_values", "where": where, "order": how.split("_", 1)[1]}, case, f"{canon} and {alias} in one {where} dictionary {both}")
+        t.extra["aberration_one_dict_combinations"] += 1
+        return
+    # conflicting values: record which spelling / position the library used; no verdict
+    ctx_ = context_for(pair)
+    won = []
+    for who, v in (("canonical", v1), ("alias", v2)):
+        if relerr(got, base.reference(kv, up, None, dict(ctx_, **{canon: float(v)}))) <= TOL_OVERRIDE:
+            won.append(who)
+    first = "canonical" if how.endswith("canonical_first") else "alias"
+    if len(won) == 1:
+        label = f"{won[0]}_spelling__listed_{'first' if won[0] == first else 'last'}"
+    else:
+        label = "neither_value" if not won else "indistinguishable"
+    t.case(key=["aber_conflict_counted", case], nontrivial=False)
+    t.extra[f"conflict_winner__{canon}__{where}__{label}"] += 1
 
 
 def w_aber_spell(item, seed=0, opts=tuple(OPT_KINDS)):
@@ -1048,6 +1061,223 @@ def w_aber_spell(item, seed=0, opts=tuple(OPT_KINDS)):
     return t
 
 
+# ----------------------------------------------------------------------------- (9) rotation-angle boundary alphabet
+_PI = math.pi
+ROT_BOUNDARY = [
+    ("0", 0.0), ("-0.0", -0.0), ("pi/2", _PI / 2), ("-pi/2", -_PI / 2), ("pi", _PI), ("-pi", -_PI), ("3pi/2", 1.5 * _PI),
+    ("2pi", 2 * _PI), ("3pi", 3 * _PI), ("pi(1+1e-6)", _PI * (1 + 1e-6)), ("pi(1-1e-6)", _PI * (1 - 1e-6)),
+    ("pi/2(1+1e-6)", _PI / 2 * (1 + 1e-6)), ("pi/2(1-1e-6)", _PI / 2 * (1 - 1e-6)),
+]  # fmt: skip
+QUARTER_TURNS = {"0": 0, "-0.0": 0, "pi/2": 1, "-pi/2": 3, "pi": 2, "-pi": 2, "3pi/2": 3, "2pi": 0, "3pi": 2}  # exact multiples of 90 degrees
+SAME_GEOMETRY = {"-0.0": "0", "2pi": "0", "-pi": "pi", "3pi": "pi", "3pi/2": "-pi/2"}  # angle -> representative mod 2 pi
+ROT_OTHER = 0.3  # construction angle of the object that receives override_rotation_angle
+TOL_ROT = 3e-5  # exact grid symmetries / equal angles mod 2pi; observed <= 1.2e-6 (perturbations of 1e-16 in cos/sin); seeded snap defect: 0.5-2
+# Continuity: the result at theta and at theta*(1+1e-6) differ by the true derivative times <= 9.4e-6 rad; observed on the
+# current tree <= 2.3e-4 (parallax, upsampling 3, theta = 3pi) for obf / mf / prlx / icom. ssb is NOT continuous in any
+# parameter (it divides by |gamma|, i.e. keeps a pure phase that flips where gamma crosses zero: observed jumps up to 0.79
+# on the current tree), so for ssb continuity is recorded, not judged; ssb is judged by the exact grid symmetry instead.
+TOL_CONT = 5e-3
+
+
+def quarter_turn_permutation(pix, n):
+    """perm[p] = index of the mask pixel at R(90 deg)^n k_p (the disc masks are invariant under quarter turns)."""
+    out = []
+    for a, b in pix:
+        for _ in range(n % 4):
+            a, b = -b, a
+        out.append(pix.index((a, b)))
+    return out
+
+
+def _rot_recon(env, kv, up, theta, source):
+    if source == "constructor":
+        return recon(build(env.x, env.maskname, env.abers, theta, env.seed), kv, up, "none", None, None)
+    return recon(build(env.x, env.maskname, env.abers, ROT_OTHER, env.seed), kv, up, "none", None, None, override_rotation_angle=theta)
+
+
+def rotation_point(t, env, kv, up, name, cache=None):
+    """Everything about one rotation angle of the boundary alphabet (env is built at rotation 0)."""
+    cache = {} if cache is None else cache
+    theta = dict(ROT_BOUNDARY)[name]
+
+    def get(nm, th, source):
+        if (nm, source) not in cache:
+            cache[(nm, source)] = _rot_recon(env, kv, up, th, source)
+        return cache[(nm, source)]
+
+    for source in ("constructor", "override"):
+        pt = env.point(kv, up, "none", None, angle=name, source=source)
+        del pt["rot"]
+        case = dict(pt, kind="rotation")
+        cls = {"angle": name, "source": source, **kclass(kv)}
+        got = get(name, theta, source)
+        nz = bool(np.any(got != 0))
+        t.case(key=["rotation", pt], nontrivial=nz, outcome=[round(float(np.abs(got).max()), 7)])
+        # closed form (4) at this angle
+        if tuple(kv) == ("prlx", False) and env.abername in ANALYTIC_ABERS:
+            wm = lib_weight_map(env.A, env.abers, theta)
+            W = float((wm if wm is not None else own_weight_map(env.g, env.maskname, theta))[env.arrays["full"]].sum())
+            want = parallax_oracle(env.x, geometric_shifts(env.pix, env.abers, theta), W, up)
+            e = relerr(got, want)
+            t.case(key=["rotation_analytic", pt], nontrivial=True)
+            t.stat("rotation_analytic_rel_err", e)
+            t.extra["rotation_closed_form_points"] += 1
+            if not e <= TOL_ANALYTIC:
+                t.fail({"relation": "parallax_analytic_at_rotation_boundary", "angle": name, "source": source}, case, f"rotation angle {name} ({theta!r} rad, {source}): parallax (no sign flipping) differs from the sum of images translated by +grad chi(R(theta) k_i)/2pi / W by {e:.3e} of max (tol {TOL_ANALYTIC}) at {pt}")
+        # exact grid symmetry: a rotation by n quarter turns == rotation 0 with the images re-assigned to the rotated pixels
+        if name in QUARTER_TURNS:
+            n = QUARTER_TURNS[name]
+            if ("sym", n) not in cache:
+                perm = quarter_turn_permutation(env.pix, n)
+                xp = np.zeros_like(env.x)
+                xp[perm] = env.x
+                cache[("sym", n)] = (perm, recon(build(xp, env.maskname, env.abers, 0.0, env.seed), kv, up, "none", None, None))
+            perm, ref = cache[("sym", n)]
+            e = relerr(got, ref[perm])
+            t.case(key=["rotation_symmetry", pt], nontrivial=bool(nz and n))
+            t.stat("rotation_symmetry_rel_err", e)
+            if not e <= TOL_ROT:
+                t.fail({"relation": "rotation_by_quarter_turns_equals_permuted_detector", **cls}, case, f"rotation angle {name} ({theta!r} rad, {source}) = {n} quarter turns: result differs from rotation 0 with every image re-assigned to the detector pixel at R(theta) k by {e:.3e} of max (tol {TOL_ROT}); for comparison it differs from the un-rotated result by {relerr(got, get('0', 0.0, 'constructor')):.3e}, at {pt}")
+        # same geometry modulo 2 pi
+        if name in SAME_GEOMETRY:
+            rep = SAME_GEOMETRY[name]
+            e = relerr(got, get(rep, dict(ROT_BOUNDARY)[rep], source))
+            t.case(key=["rotation_mod_2pi", pt], nontrivial=nz)
+            t.stat("rotation_mod_2pi_rel_err", e)
+            if not e <= TOL_ROT:
+                t.fail({"relation": "rotation_angle_equal_modulo_2pi", **cls}, case, f"rotation angle {name} differs from the same geometry {rep} by {e:.3e} of max (tol {TOL_ROT}) at {pt}")
+        # continuity: theta and theta*(1+1e-6) are the same geometry to ~1e-5 rad
+        nb = theta * (1 + 1e-6) if theta != 0 else 1e-6
+        e = relerr(got, get(name + "*", nb, source))
+        t.case(key=["rotation_continuity", pt], nontrivial=nz)
+        if kv[0] == "ssb":
+            t.stat("rotation_continuity_rel_diff_ssb_not_judged", e)
+        else:
+            t.stat("rotation_continuity_rel_diff", e)
+            if not e <= TOL_CONT:
+                t.fail({"relation": "continuous_in_rotation_angle", **cls}, case, f"rotation angle {name} ({theta!r} rad, {source}) and {nb!r} rad differ by {e:.3e} of max (tol {TOL_CONT}: the same geometry to 1e-5 rad) at {pt}")
+    # given at construction == given as override
+    pt = env.point(kv, up, "none", None, angle=name, source="constructor_vs_override")
+    del pt["rot"]
+    e = relerr(cache[(name, "override")], cache[(name, "constructor")])
+    t.case(key=["rotation_override", pt], nontrivial=True)
+    t.stat("rotation_override_rel_err", e)
+    if not e <= TOL_OVERRIDE:
+        t.fail({"relation": "override_rotation_equals_constructor_rotation", "angle": name, **kclass(kv)}, dict(pt, kind="rotation"), f"override_rotation_angle={name} differs from rotation_angle={name} at construction by {e:.3e} of max at {pt}")
+
+
+def w_rotation(item, seed=0):
+    shape, maskname, abername, kvi, up = item
+    t = Tally()
+    env = Env(shape, maskname, abername, 0.0, seed)
+    kv = KVARIANTS[kvi]
+    cache = {}
+    for name, _ in ROT_BOUNDARY:
+        try:
+            rotation_point(t, env, kv, up, name, cache)
+        except ReconError as ex:
+            pt = env.point(kv, up, "none", None, angle=name)
+            t.fail({"relation": "reconstruct_raised", "exception": type(ex.__cause__).__name__, **kclass(kv)}, dict(pt, kind="rotation", source="constructor"), f"{ex} at {pt}")
+    t.extra["rotation_items"] += 1
+    return t
+
+
+# ----------------------------------------------------------------------------- (10) key-ORDER invariance of aberration dictionaries
+ORDER_SETS = {
+    "defocus+astig": ABERS["defocus+astig"],
+    "defocus+astig+coma+Cs": ABERS["defocus+astig+coma+Cs"],
+    "defocus+astig+coma+Cs+C5": HIGH_CONTEXT,
+}
+KEY_ORDERS = ["canonical", "reversed", "angles_first", "angle_before_its_magnitude"]
+ORDER_SOURCES = ["constructor", "override", "angles_at_construction_magnitudes_as_override", "magnitudes_at_construction_angles_as_override", "first_half_at_construction_second_half_as_override"]
+
+
+def ordered_items(d, order):
+    keys = list(d)
+    if order == "reversed":
+        keys = keys[::-1]
+    elif order == "angles_first":
+        keys = [k for k in keys if k.startswith("phi")] + [k for k in keys if not k.startswith("phi")]
+    elif order == "angle_before_its_magnitude":
+        out = []
+        for k in keys:
+            if k.startswith("phi"):
+                continue
+            if "phi" + k[1:] in d:
+                out.append("phi" + k[1:])
+            out.append(k)
+        keys = out
+    return [(k, d[k]) for k in keys]
+
+
+def respell_items(items, spelling):
+    if spelling == "canonical":
+        return list(items)
+    by_canon = {c: (a, s) for a, c, s in aber_pairs()[0]}
+    return [((by_canon[k][0], by_canon[k][1] * v) if k in by_canon else (k, v)) for k, v in items]
+
+
+def key_order_point(t, base, kv, up, setname, spelling, order, source):
+    env = base.env
+    canon = ORDER_SETS[setname]
+    items = ordered_items(canon, order)
+    is_angle = [k.startswith("phi") for k, _ in items]
+    sp = respell_items(items, spelling)
+    if source == "constructor":
+        ctor, over = sp, None
+    elif source == "override":
+        ctor, over = [], sp
+    elif source == "angles_at_construction_magnitudes_as_override":
+        ctor, over = [e for e, a in zip(sp, is_angle) if a], [e for e, a in zip(sp, is_angle) if not a]
+    elif source == "magnitudes_at_construction_angles_as_override":
+        ctor, over = [e for e, a in zip(sp, is_angle) if not a], [e for e, a in zip(sp, is_angle) if a]
+    else:
+        h = len(sp) // 2
+        ctor, over = sp[:h], sp[h:]
+    case = dict(env.point(kv, up, "none"), kind="key_order", set=setname, spelling=spelling, order=order, source=source)
+    del case["aber"]
+    b = 2 if source != "constructor" else None
+    try:
+        dp = build(env.x, env.maskname, dict(ctor), env.rot, env.seed)
+        got = recon(dp, kv, up, "none", None, b, **({"override_aberration_coefs": dict(over)} if over else {}))
+        ref = base.reference(kv, up, b, dict(canon))
+    except ReconError as ex:
+        t.fail({"relation": "reconstruct_raised", "exception": type(ex.__cause__).__name__, **kclass(kv)}, case, f"{ex} at {case}")
+        return
+    cls = {"relation": "aberration_key_order_invariance", "order": order, "source": source, "spelling": spelling}
+    e = relerr(got, ref)
+    t.case(key=["key_order", case], nontrivial=bool(np.any(ref != 0)), outcome=[round(float(np.abs(ref).max()), 7)])
+    t.stat("key_order_rel_err", e)
+    t.extra["key_order_combinations"] += 1
+    what = f"constructor {dict(ctor)}" + (f" + override {dict(over)}" if over else "")
+    if not e <= TOL_OVERRIDE:
+        t.fail(dict(cls, judge="differential"), case, f"{what}: result differs from the same values in canonical order at construction {dict(canon)} by {e:.3e} of max (tol {TOL_OVERRIDE}) at {case}")
+    if tuple(kv) == ("prlx", False) and not (set(canon) - set(LOW_CONTEXT)):
+        want = parallax_oracle(env.x, geometric_shifts(env.pix, canon, env.rot), env.W["full"], up)
+        e2 = relerr(got, want)
+        t.case(key=["key_order_analytic", case], nontrivial=True)
+        t.stat("key_order_analytic_rel_err", e2)
+        t.extra["key_order_closed_form_points"] += 1
+        if not e2 <= TOL_ANALYTIC:
+            t.fail(dict(cls, judge="closed_form"), case, f"{what}: parallax (no sign flipping) differs from the sum of images translated by grad chi/2pi for {dict(canon)} by {e2:.3e} of max (tol {TOL_ANALYTIC}) at {case}")
+
+
+def w_key_order(item, seed=0):
+    shape, maskname, rot, kvi, up = item
+    t = Tally()
+    base = AberBase(shape, maskname, rot, seed)
+    kv = KVARIANTS[kvi]
+    for setname in ORDER_SETS:
+        for spelling in ("canonical", "alias"):
+            for order in KEY_ORDERS:
+                for source in ORDER_SOURCES:
+                    if (spelling, order, source) == ("canonical", "canonical", "constructor"):
+                        continue  # the reference itself
+                    key_order_point(t, base, kv, up, setname, spelling, order, source)
+    t.extra["key_order_items"] += 1
+    return t
+
+
 # ----------------------------------------------------------------------------- driver
 def run(ctx):
     q = ctx.quick
@@ -1063,7 +1293,9 @@ def run(ctx):
         "oracle (6) (same filter envelope for every kernel) is not part of the literal statement; it makes 'filter' a hyper-parameter with one meaning",
         "mask spellings hold 0/1 (False/True) values only; a spelling the library rejects by raising is counted per spelling, never a failure",
         "the optimized hyper-parameter state is reached only through the public searches (grid_search_hyperparameters with one grid point or a fixed value, optimize_hyperparameters with low == high, one trial), which are deterministic for a single candidate",
-        "'defocus' = -C10 (documented sign); all other aliases carry the value of their canonical symbol; conflicting spellings in one dictionary: the entry listed last wins (behaviour of the current tree, own failure class)",
+        "'defocus' = -C10 (documented sign); all other aliases carry the value of their canonical symbol; for conflicting values of one coefficient in one dictionary the property states no order: which spelling wins is counted (coverage.conflicting_spellings_winner), not judged",
+        "rotation boundary family: ssb divides by |gamma| and is therefore not continuous in any parameter (jumps up to 0.8 on the current tree); continuity in the rotation angle is judged for obf, mf, parallax and icom only; ssb is judged by the exact quarter-turn symmetry of the detector grid; there is no degree spelling of the rotation angle in from_virtual_bfs / reconstruct",
+        "an aberration dictionary is a mapping: key order (also across constructor and override) must not matter",
     )
 
     def once():
@@ -1136,7 +1368,34 @@ def run(ctx):
     ctx.coverage["bounds"]["aberration_spelling_items"] = len(a_items)
     ctx.pmap(w_aber_spell, a_items, chunk=1, label="aberration spellings x sources", seed=ctx.seed, opts=a_opts)
 
+    # (9) rotation-angle boundary alphabet
+    r_shapes = [SHAPES[1]] if q else SHAPES
+    r_abers = ["none", "defocus+astig", "defocus+astig+coma+Cs"] if q else list(ABERS)
+    r_ups = [1, 2] if q else UPS
+    r_items = list(itertools.product(r_shapes, masks, r_abers, range(len(KVARIANTS)), r_ups))
+    r_items.sort(key=lambda it: (len(det_mask(it[1])[1]), it[4], list(ABERS).index(it[2]), it[0][0] * it[0][1], it[3]))
+    ctx.coverage["alphabet"]["rotation_boundary_angles"] = {n: v for n, v in ROT_BOUNDARY}
+    ctx.coverage["alphabet"]["rotation_sources"] = ["constructor", f"override_rotation_angle on an object built with {ROT_OTHER}"]
+    ctx.coverage["bounds"]["rotation_items"] = len(r_items)
+    ctx.pmap(w_rotation, r_items, chunk=1, label="rotation boundary angles", seed=ctx.seed)
+
+    # (10) key-order invariance
+    k_masks = ["disc5"] if q else masks
+    k_ups = [1] if q else [1, 2]
+    k_items = list(itertools.product([SHAPES[1]], k_masks, [0.3] if q else ROTS, range(len(KVARIANTS)), k_ups))
+    ctx.coverage["alphabet"]["key_order"] = {"sets": ORDER_SETS, "orders": KEY_ORDERS, "sources": ORDER_SOURCES, "spellings": ["canonical", "alias"]}
+    ctx.coverage["bounds"]["key_order_items"] = len(k_items)
+    ctx.pmap(w_key_order, k_items, chunk=1, label="aberration key order", seed=ctx.seed)
+
     ex = ctx.tally.extra
+    winners = {}
+    for k, v in sorted(ex.items()):
+        if k.startswith("conflict_winner__"):
+            _, coef, where, label = k.split("__", 3)
+            winners.setdefault(coef, {}).setdefault(where, {})[label] = int(v)
+    ctx.coverage["conflicting_spellings_winner"] = winners
+    if not ctx.tally.nfails and (ex.get("rotation_closed_form_points", 0) < 10 or ex.get("key_order_combinations", 0) < 100):
+        raise Broken("the rotation-boundary / key-order families were not enumerated")
     ctx.coverage["mask_spellings_rejected"] = {k.split("__", 1)[1]: int(v) for k, v in sorted(ex.items()) if k.startswith("mask_spelling_rejected__")}
     ctx.coverage["index_spellings_rejected"] = {k.split("__", 1)[1]: int(v) for k, v in sorted(ex.items()) if k.startswith("index_spelling_rejected__")}
     if not ctx.tally.nfails and (not any(k.startswith("mask_spelling_accepted__") for k in ex) or ex.get("aberration_spelling_combinations", 0) < 100 or ex.get("aberration_spelling_closed_form_points", 0) < 10):
@@ -1172,6 +1431,21 @@ def replay(ctx, case):
         else:
             aber_one_dict(t, base, kv, case["up"], pair, case["where"], case["how"])
         print("  worst observed deviations at this point:", {k: f"{v:.3e}" for k, v in sorted(t.maxima.items())})
+        for f in t.fails:
+            ctx.fail(f["cls"], f["case"], f["msg"])
+        return
+    if kind == "key_order":
+        key_order_point(t, AberBase(tuple(case["shape"]), case["mask"], case["rot"], ctx.seed), kv, case["up"], case["set"], case["spelling"], case["order"], case["source"])
+        print("  worst observed deviations at this point:", {k: f"{v:.3e}" for k, v in sorted(t.maxima.items())})
+        for f in t.fails:
+            ctx.fail(f["cls"], f["case"], f["msg"])
+        return
+    if kind == "rotation":
+        try:
+            rotation_point(t, Env(tuple(case["shape"]), case["mask"], case["aber"], 0.0, ctx.seed), kv, case["up"], case["angle"])
+        except ReconError as ex:
+            t.fail({"relation": "reconstruct_raised", "exception": type(ex.__cause__).__name__, **kclass(kv)}, case, str(ex))
+        print("  worst observed deviations at this angle:", {k: f"{v:.3e}" for k, v in sorted(t.maxima.items())})
         for f in t.fails:
             ctx.fail(f["cls"], f["case"], f["msg"])
         return
